@@ -611,6 +611,12 @@ impl<'s, M: Matcher, S: Sink> Core<'s, M, S> {
         if self.config.stop_on_nonmatch && self.has_matched {
             return false;
         }
+        // The fast inverted search skips over the first non-matching line in
+        // the same step that reports the matching lines before it, so it
+        // cannot stop at that line. Leave this combination to the slow path.
+        if self.config.stop_on_nonmatch && self.config.invert_match {
+            return false;
+        }
         if let Some(line_term) = self.matcher.line_terminator() {
             // FIXME: This works around a bug in grep-regex where it does
             // not set the line terminator of the regex itself, and thus
